@@ -234,6 +234,7 @@ class Executor:
         self.reps = {}      # raw representations driven by primitive calls (Layer R)
         self.integrators = {}
         self.raw_deleted = set()
+        self.emb_of = {}        # embedding handle -> handle of the complex it was made for
         self.den = 2        # filtration indices are integers over this denominator
 
     # -- tokens ------------------------------------------------------------------------------------------
@@ -279,6 +280,12 @@ class Executor:
         if v != int(v):
             return 'foreignidx:%r' % (x,)
         return str(int(v))
+
+    def orders(self, ks):
+        """the orders asked for, as a list, a tuple or a one-shot iterator in turn (any iterable of orders will do)"""
+        self.kscalls = getattr(self, 'kscalls', 0) + 1
+        k = (self.kscalls + len(ks)) % 3
+        return iter(ks) if k == 0 else (tuple(ks) if k == 1 else ks)
 
     def integrator(self, key, dflt):
         if (key, dflt) not in self.integrators:
@@ -365,6 +372,10 @@ class Executor:
             return 'ok ' + self.fl(O[h].addSimplicesFrom(O[t[2]], rename=(r if r else None)))
         if op == 'del':
             O[h].deleteSimplex(self.name(t[2])); return 'ok -'
+        if op == 'delitem':
+            # the operator form `del c[s]` of the same request
+            self.effective = 'del %s %s' % (h, t[2])
+            del O[h][self.name(t[2])]; return 'ok -'
         if op == 'delb':
             O[h].deleteSimplexWithBasis(self.names(t[2])); return 'ok -'
         if op == 'dels':
@@ -483,9 +494,9 @@ class Executor:
                 out.append('[' + ','.join('%s:%d:%s' % (self.T(s), c.orderOf(s), self.fs(c.faces(s))) for s in c.simplices()) + ']')
             return 'ok [' + ','.join(out) + ']'
         if op == 'emb':
-            self.embs[h] = CountingEmbedding(O[t[2]], int(t[3])); return 'ok -'
+            self.embs[h] = CountingEmbedding(O[t[2]], int(t[3])); self.emb_of[h] = t[2]; return 'ok -'
         if op == 'lemb':
-            self.embs[h] = TriangularLatticeEmbedding(O[t[2]], h=float(t[5]), w=float(t[6])); return 'ok -'
+            self.embs[h] = TriangularLatticeEmbedding(O[t[2]], h=float(t[5]), w=float(t[6])); self.emb_of[h] = t[2]; return 'ok -'
         if op == 'pos':
             self.embs[h][self.name(t[2])] = [int(x) for x in split_top(t[3][1:-1], ',')] if t[3] != '[]' else []
             return 'ok -'
@@ -565,11 +576,11 @@ class Executor:
         if q == 'snf':
             return 'ok ' + fmt_mat(c.smithNormalForm(int(a[1])))
         if q == 'Z':
-            z = c.Z() if len(a) < 2 else c.Z([int(x) for x in split_top(a[1][1:-1], ',')] if a[1] != '[]' else [])
+            z = c.Z() if len(a) < 2 else c.Z(self.orders([int(x) for x in split_top(a[1][1:-1], ',')] if a[1] != '[]' else []))
             self.last_Z = z
             return 'ok {' + ','.join('%d:[%s]' % (k, ','.join(self.fl(ch) for ch in chains)) for k, chains in z.items()) + '}'
         if q == 'betti':
-            b = c.bettiNumbers() if len(a) < 2 else c.bettiNumbers([int(x) for x in split_top(a[1][1:-1], ',')] if a[1] != '[]' else [])
+            b = c.bettiNumbers() if len(a) < 2 else c.bettiNumbers(self.orders([int(x) for x in split_top(a[1][1:-1], ',')] if a[1] != '[]' else []))
             return 'ok {' + ','.join('%d:%d' % (k, v) for k, v in b.items()) + '}'
         if q == 'euler':
             return 'ok %d' % c.eulerCharacteristic()
